@@ -106,9 +106,29 @@ def expand_child(c, kt):
             "handler": (c["handler"] or "").lower(), "_raw": c}
 
 
+def IMPORT(pkg):
+    """A schema-level <import package=.../> placed among the type definitions."""
+    return {"import": pkg}
+
+
+def _flatten_types(doc):
+    """Type documents in definition order with schema-level imports replaced by the types of the component."""
+    out, comps = [], []
+    for td in doc["types"]:
+        if "import" in td:
+            from . import packages
+            if td["import"] not in comps:
+                comps.append(td["import"])
+                out += packages.PKG_DOCS[td["import"]]
+        else:
+            out.append(td)
+    return out, comps
+
+
 def expand(doc):
     types = {}
-    for td in doc["types"]:
+    flat, comps = _flatten_types(doc)
+    for td in flat:
         n = td["name"].lower()
         if td["abstract"]:
             types[n] = {"abstract": True, "impl": set()}
@@ -130,7 +150,7 @@ def expand(doc):
     top = {"abstract": False, "keytype": kt, "datatype": doc["datatype"] or "null",
            "children": [expand_child(c, kt) for c in doc["children"]],
            "handler": (doc["handler"] or "").lower()}
-    return {"top": top, "types": types, "comps": set()}
+    return {"top": top, "types": types, "comps": set(comps)}
 
 
 def for_tla(rec):
@@ -182,6 +202,9 @@ def to_xml(doc, top="schema", extra_attrs=()):
     out = ["<%s%s>" % (top, _attrs([("keytype", doc.get("keytype")), ("datatype", _dt(doc.get("datatype"))),
                                    ("handler", doc.get("handler"))] + list(extra_attrs)))]
     for td in doc["types"]:
+        if "import" in td:
+            out.append("  <import package=%s/>" % quoteattr(td["import"]))
+            continue
         if td["abstract"]:
             out.append("  <abstracttype name=%s/>" % quoteattr(td["name"]))
             continue
